@@ -467,6 +467,61 @@ def run(ctx):
                "a block must be destroyed and freed the way it was allocated and constructed: %s" % why)
     ctx.floor("C04.R6", n6, 6, "destructor / delete_block instances")
 
+    # -------------------------------------------------- R7 index -> (block, offset) mapping
+    # one element per index: block_index(i) = i >> bits and block_offset(i) = i & mask with mask = 2^bits - 1 = block_size - 1,
+    # and every user applies both mappings to the same index
+    n7 = 0
+    metas = {}
+    for fn in fb.find(pred=lambda f: re.search(r"ConcurrentVector<.*>::(Dynamic|Static)Meta$", f.record or "") and f.has_cfg()):
+        metas.setdefault(fn.record, {})[fn.name] = fn
+
+    def ret_of(fn):
+        for _, ev in fn.all_events():
+            if ev["e"] == "ret" and "v" in ev:
+                return strip_cast(ev["v"])
+        return None
+    for rec, fs in sorted(metas.items()):
+        need = ("block_index", "block_offset", "block_mask", "block_mask_bits", "block_size")
+        if not all(k in fs for k in need):
+            continue
+        n7 += 1
+        bi, bo, bm, bb, bs = [ret_of(fs[k]) for k in need]
+        ok = isinstance(bi, dict) and bi.get("op") == ">>" and isinstance(bo, dict) and bo.get("op") == "&"
+        why = "block_index must be index >> bits and block_offset index & mask"
+        if ok:
+            shift, mask = strip_cast(bi.get("r")), strip_cast(bo.get("r"))
+            if const_val(shift) is not None:
+                # static: constants
+                sz = const_val(bs)
+                ok = const_val(bb) == const_val(shift) and const_val(mask) == const_val(bm) and isinstance(sz, int) and \
+                    (1 << const_val(shift)) == sz and const_val(mask) == sz - 1
+                why = "constants disagree: shift %s, bits %s, mask %s/%s, size %s" % (const_val(shift), const_val(bb), const_val(mask), const_val(bm), sz)
+            else:
+                ok = pstr(shift) == pstr(bb) and pstr(mask) == pstr(bm) and isinstance(bs, dict) and bs.get("op") == "+" and \
+                    pstr(strip_cast(bs.get("l"))) == pstr(bm) and const_val(bs.get("r")) == 1
+                why = "fields disagree: shift by %s vs bits %s, mask %s vs %s, size %s" % (pstr(shift), pstr(bb), pstr(mask), pstr(bm), pstr(bs))
+                if ok and "set_block_size" in fs:
+                    f2 = fs["set_block_size"]
+                    ops = sorted((strip_cast(ev.get("lhs", {})).get("n"), ev.get("op")) for _, ev in f2.all_events()
+                                 if ev["e"] == "asg" and strip_cast(ev.get("lhs", {})).get("k") == "f" and ev.get("op") in ("++", "<<=", "|="))
+                    ok = ops == [("_block_mask", "<<="), ("_block_mask", "|="), ("_block_mask_bits", "++")]
+                    why = "set_block_size must keep mask == 2^bits - 1 (per doubling: ++bits, mask <<= 1, mask |= 1); found %s" % ops
+        ctx.ob("C04.R7a", rec.replace("babylon::", "")[:90], ok, fs["block_index"].loc,
+               "the index mapping is not a bijection between indices and (block, offset) pairs: %s" % why)
+    for fn in fb.find(pred=lambda f: is_vec(f) and f.has_cfg() and not f.lambda_):
+        ig = IG(fn, inline=lambda a, b, c: False)
+        live = ig.live_nodes()
+        bis = [n for n in L.call_nodes(ig, name="block_index", live=live)]
+        bos = [n for n in L.call_nodes(ig, name="block_offset", live=live)]
+        if not bis or not bos:
+            continue
+        n7 += 1
+        a_i = sorted(set(pstr(strip_cast(ig.rarg(n, 0))) for n in bis))
+        a_o = sorted(set(pstr(strip_cast(ig.rarg(n, 0))) for n in bos))
+        ctx.ob("C04.R7b", L.short(fn)[:100], a_i == a_o, fn.loc,
+               "block and offset must be computed from the same index: block_index(%s) vs block_offset(%s)" % (a_i, a_o))
+    ctx.floor("C04.R7", n7, 6, "meta records and index users")
+
 SWEEP = ["concurrent/test_vector.cpp",
          "concurrent/test_thread_local.cpp",
          "concurrent/test_object_pool.cpp"]
